@@ -73,6 +73,12 @@ def _selections(prog, paths, rng, tier):
     for p in paths:
         if len(p) >= 2:
             cands.append(["dict", {p[0]: (["tup", list(p[1:])] if len(p) > 2 else ["str", p[1]])}])
+    # selections that can switch a Cond: the choices feeding its predicate
+    from lib import spec as _spec
+
+    feeders = sorted(_spec.cond_feeders(prog))
+    for p in feeders:
+        cands.append(["tup", list(p)] if len(p) > 1 else ["str", p[0]])
     alphabet = names + ["zz"]
     for _ in range(10):
         cands.append(S.random_expr(rng, alphabet, int(rng.integers(1, 3)), max_tup=2))
@@ -81,7 +87,7 @@ def _selections(prog, paths, rng, tier):
         st = S.ref_set(e, paths)
         by_set.setdefault(st, []).append(e)
     chosen = []
-    must = [frozenset(), frozenset(paths)]
+    must = [frozenset(), frozenset(paths)] + [frozenset([p]) for p in feeders[:2]]
     budget = 6 if tier == "quick" else 14
     keys = list(by_set)
     order = [k for k in must if k in by_set] + [keys[i] for i in rng.permutation(len(keys)) if keys[i] not in must]
